@@ -1,7 +1,7 @@
 package h
 
 // Object client / store conformance driver (spec/object/ObjectFetch.tla, C15).
-// (a) end to end: a producer and a consumer object.Client on real basic.Engines with dummy faces and timers in one
+// (a) end to end: a producer and a consumer object.Client on real basic.Engines with dummy faces and the real timer (virtual time) in one
 //     bubble; the harness is the network (it moves packets between the two faces, shuffles, drops first copies within
 //     the retry budget); every consume run is one event with what the callback reported.
 // (b) stores: operation histories (put / get exact / get prefix / remove / transactions) on MemoryStore and BoltStore,
@@ -29,13 +29,14 @@ import (
 
 type objNode struct {
 	face  *dummy.DummyFace
-	timer *dummy.Timer
+	timer ndn.Timer
 	eng   *basic_engine.Engine
 	cli   *object.Client
 }
 
 func mkObjNode(store ndn.Store) *objNode {
-	n := &objNode{face: dummy.NewDummyFace(), timer: dummy.NewTimer()}
+	n := &objNode{face: dummy.NewDummyFace(), timer: basic_engine.NewTimer()}
+	// (the real timer under the bubble's virtual clock: the test-only dummy.Timer loses events scheduled from another goroutine while it fires)
 	n.eng = basic_engine.NewEngine(n.face, n.timer, sec.NewSha256IntSigner(n.timer), func(enc.Name, enc.Wire, ndn.Signature) bool { return true })
 	n.eng.Start()
 	n.cli = object.NewClient(n.eng, store)
@@ -57,6 +58,9 @@ func TestObjGen(t *testing.T) {
 	defer close(hw.stop)
 	for tr := 0; tr < nEx; tr++ {
 		rng := rand.New(rand.NewSource(verifSeed()*6007 + int64(tr)))
+		if only := envInt("VERIF_ONLY", -1); only >= 0 && tr != only {
+			continue
+		}
 		dir, _ := os.MkdirTemp("", "verifbolt")
 		synctest.Test(t, func(t *testing.T) {
 			var store ndn.Store = object.NewMemoryStore()
@@ -195,6 +199,7 @@ func TestObjGen(t *testing.T) {
 					}
 					holdB := B != nil && bh >= 0 && nack
 					var held, heldB, nacks []enc.Buffer
+					var dbg []string
 					hw.tick(map[string]any{"execution": tr, "event": e, "ev": "consume", "n": strs(on), "byVersion": A.byVersion, "blackhole": bh, "nack": nack, "concurrent": B != nil})
 					for step := 0; step < 3000 && !(A.done && (B == nil || B.done)); step++ {
 						hw.tick(nil)
@@ -214,6 +219,12 @@ func TestObjGen(t *testing.T) {
 							}
 							batch = append(batch, p)
 						}
+						if os.Getenv("VERIF_DEBUG") != "" && len(batch) > 0 {
+							for _, b := range batch {
+								o, sg := segOf(b)
+								dbg = append(dbg, fmt.Sprintf("s%d:%s/%d", step, o, sg))
+							}
+						}
 						rng.Shuffle(len(batch), func(i, j int) { batch[i], batch[j] = batch[j], batch[i] })
 						var replies []enc.Buffer
 						for _, b := range batch {
@@ -227,18 +238,27 @@ func TestObjGen(t *testing.T) {
 								continue
 							}
 							key := string(b[:min(48, len(b))])
+							if pk, _, err := spec.ReadPacket(enc.NewBufferReader(b)); err == nil && pk.Interest != nil {
+								key = pk.Interest.NameV.String() // the loss budget is per Interest name: retransmissions carry fresh nonces
+							}
 							if rng.Intn(5) == 0 && dropped[key] < 2 { // losses stay inside the retry budget (3)
 								dropped[key]++
 								continue
 							}
 							prod.face.FeedPacket(b)
 							synctest.Wait()
+							nrep := 0
 							for {
 								p, err := prod.face.Consume()
 								if err != nil {
 									break
 								}
 								replies = append(replies, p)
+								nrep++
+							}
+							if os.Getenv("VERIF_DEBUG") == "2" {
+								o, sg := segOf(b)
+								fmt.Println("  step", step, "fed", o, sg, "replies", nrep, "now", time.Now().Format("15:04:05.000"))
 							}
 						}
 						rng.Shuffle(len(replies), func(i, j int) { replies[i], replies[j] = replies[j], replies[i] })
@@ -258,8 +278,7 @@ func TestObjGen(t *testing.T) {
 						}
 						synctest.Wait()
 						if len(batch) == 0 {
-							cons.timer.MoveForward(500 * time.Millisecond)
-							prod.timer.MoveForward(500 * time.Millisecond)
+							time.Sleep(500 * time.Millisecond)
 						}
 					}
 					for _, p := range held {
@@ -267,8 +286,11 @@ func TestObjGen(t *testing.T) {
 						synctest.Wait()
 					}
 					for i := 0; i < 10; i++ { // give late callbacks a chance to (wrongly) fire again
-						cons.timer.MoveForward(time.Second)
+						time.Sleep(time.Second)
 						synctest.Wait()
+					}
+					if os.Getenv("VERIF_DEBUG") != "" && (!A.done || (B != nil && !B.done) || (A.errS != "" && bh < 0 && A.exists) || (B != nil && B.errS != "" && B.exists)) {
+						fmt.Println("STALL exec", tr, "event", e, "A", A.on, A.done, A.byVersion, "B", B != nil, "bh", bh, "nack", nack, "holdB", holdB, "trace", dbg)
 					}
 					for _, r := range []*cRun{A, B} {
 						if r != nil {
